@@ -661,7 +661,7 @@ func TestZZVerifC15ParseTrace(t *testing.T) {
 
 	n := 1500
 	if zzGetenv("VERIF_TIER") == "thorough" {
-		n = 12000
+		n = 8000
 	}
 
 	if s := zzGetenv("VERIF_N"); s != "" {
@@ -737,8 +737,8 @@ type zzC15Tour struct {
 	Block []string    `json:"block"`
 	Atoms []string    `json:"atoms"`
 	Steps []zzC15Step `json:"steps"`
-	// GoOn makes the walk continue after a step in which nothing but the
-	// remembered checksum disagrees (to show what that leads to).
+	// GoOn makes the walk continue after a disagreement (isolated re-runs of
+	// a known deviation, to show what it leads to).
 	GoOn bool `json:"go_on"`
 }
 
@@ -1631,7 +1631,7 @@ func TestZZVerifC15RefreshTrace(t *testing.T) {
 
 	nTraces, nSteps := 30, 30
 	if zzGetenv("VERIF_TIER") == "thorough" {
-		nTraces, nSteps = 160, 45
+		nTraces, nSteps = 120, 45
 	}
 
 	if s := zzGetenv("VERIF_N"); s != "" {
